@@ -11,6 +11,7 @@ import (
 	"strings"
 
 	"package-operator.run/internal/packages/zzverif/checks"
+	"package-operator.run/internal/packages/zzverif/checks/twin"
 	"package-operator.run/internal/packages/zzverif/kmodel"
 	"package-operator.run/internal/packages/zzverif/osw"
 	"package-operator.run/internal/packages/zzverif/report"
@@ -24,6 +25,7 @@ func system(n int, mask uint, classes []string, pauses int, drifts int, celProbe
 	}
 	sliced := len(celProbes) > 1 && celProbes[1]
 	successor := len(celProbes) > 2 && celProbes[2]
+	withPrev := len(celProbes) > 3 && celProbes[3]
 	cfg := osw.B1(n, mask)
 	return &world.System{
 		Name: fmt.Sprintf("B1 phases=%d delegated=%03b pauses=%d drifts=%d", n, mask, pauses, drifts),
@@ -39,7 +41,15 @@ func system(n int, mask uint, classes []string, pauses int, drifts int, celProbe
 				}
 				w.Budget["stale"] = 1
 			}
-			w.MustCreate(world.NewObjectSet("r1", ps, probes))
+			if withPrev {
+				// r1 is a second revision: an unrelated earlier revision r0 has reported revision 1, so
+				// r1's first pass also computes and persists its own revision number
+				w.MustCreate(world.NewObjectSet("r0", osw.PhaseSpecs(osw.OnePhase("z"), 1), nil))
+				w.Reconcile(world.CtrlObjectSet, osw.NN("r0"), nil)
+				w.MustCreate(world.NewObjectSet("r1", ps, probes, "r0"))
+			} else {
+				w.MustCreate(world.NewObjectSet("r1", ps, probes))
+			}
 			if successor {
 				// a newer revision r2 that keeps only r1's first phase: it takes the object over, r1
 				// goes on observing it and must still gate its later phases on that object's probes
@@ -212,6 +222,7 @@ type shape struct {
 	cel     bool // probes are a CEL rule with an empty failure message
 	sliced  bool // the phases' objects live in ObjectSlices, a lagging cache may hide one
 	succ    bool // a newer revision r2 (previous: r1) keeps r1's first phase only
+	prev    bool // r1 names an earlier revision r0 as previous (its first pass assigns revision 2)
 }
 
 var (
@@ -230,6 +241,7 @@ func shapes(quick bool) []shape {
 			{n: 2, mask: 0, classes: two, sliced: true},
 			{n: 2, mask: 0, classes: two, succ: true}, {n: 2, mask: 2, classes: two, succ: true},
 			{n: 2, mask: 0, classes: zero}, {n: 2, mask: 1, classes: zero},
+			{n: 2, mask: 0, classes: two, sliced: true, prev: true}, {n: 2, mask: 2, classes: two, prev: true},
 		}
 	}
 	var out []shape
@@ -254,6 +266,7 @@ func shapes(quick bool) []shape {
 		out = append(out, shape{n: 2, mask: m, classes: two, succ: true}, shape{n: 2, mask: m, classes: []string{"ready", "notready", "stale0"}})
 	}
 	out = append(out, shape{n: 3, mask: 0, classes: two, succ: true}, shape{n: 2, mask: 0, classes: two, drifts: 1, succ: true})
+	out = append(out, shape{n: 2, mask: 0, classes: two, sliced: true, prev: true}, shape{n: 3, mask: 0, classes: two, sliced: true, prev: true}, shape{n: 2, mask: 0b10, classes: three, sliced: true, prev: true}, shape{n: 2, mask: 1, classes: two, prev: true})
 	return out
 }
 
@@ -266,10 +279,10 @@ func run(o checks.Opts) *report.Report {
 		if o.Shards > 1 && i%o.Shards != o.Shard {
 			continue
 		}
-		sys := system(s.n, s.mask, s.classes, s.pauses, s.drifts, s.cel, s.sliced, s.succ)
-		sys.Name += fmt.Sprintf(" statuses=%d celProbes=%v sliced=%v successor=%v", len(s.classes), s.cel, s.sliced, s.succ)
+		sys := system(s.n, s.mask, s.classes, s.pauses, s.drifts, s.cel, s.sliced, s.succ, s.prev)
+		sys.Name += fmt.Sprintf(" statuses=%d celProbes=%v sliced=%v successor=%v prev=%v", len(s.classes), s.cel, s.sliced, s.succ, s.prev)
 		sys.MaxStates = 400000
-		osw.RunBFS(rep, sys, map[string]any{"n": s.n, "mask": s.mask, "classes": s.classes, "pauses": s.pauses, "drifts": s.drifts, "cel": s.cel, "sliced": s.sliced, "succ": s.succ})
+		osw.RunBFS(rep, sys, map[string]any{"n": s.n, "mask": s.mask, "classes": s.classes, "pauses": s.pauses, "drifts": s.drifts, "cel": s.cel, "sliced": s.sliced, "succ": s.succ, "prev": s.prev})
 		rep.Samples = append(rep.Samples, map[string]any{"system": sys.Name, "example_path": []string{"reconcile:os:r1", "workload:Widget/a=ready", "reconcile:os:r1", "workload:Widget/a=notready", "reconcile:os:r1"}})
 	}
 	return rep
@@ -289,7 +302,20 @@ func replay(v report.Violation) string {
 	cel, _ := v.Params["cel"].(bool)
 	sliced, _ := v.Params["sliced"].(bool)
 	succ, _ := v.Params["succ"].(bool)
-	return osw.ReplayBFS(system(int(n), uint(mask), classes, int(pauses), int(drifts), cel, sliced, succ), v)
+	prev, _ := v.Params["prev"].(bool)
+	return osw.ReplayBFS(system(int(n), uint(mask), classes, int(pauses), int(drifts), cel, sliced, succ, prev), v)
+}
+
+// twinScenarios: phase gating of the cluster-scoped kinds in lockstep with the namespaced ones.
+func twinScenarios(quick bool) []twin.Scenario {
+	out := []twin.Scenario{
+		{Kind: "chain", N: 3, Mask: 0, Classes: two},
+		{Kind: "chain", N: 2, Mask: 0b01, Classes: three},
+	}
+	if !quick {
+		out = append(out, twin.Scenario{Kind: "chain", N: 3, Mask: 0b010, Classes: three}, twin.Scenario{Kind: "chain", N: 2, Mask: 0b11, Classes: []string{"ready", "notready", "stale0"}, Third: 1})
+	}
+	return out
 }
 
 func init() {
@@ -302,15 +328,16 @@ func init() {
 		},
 		Subs: []*checks.Sub{{Name: "bfs", Shards: func(t string) int {
 			if t == "thorough" {
-				return 46
+				return 50
 			}
-			return 16
+			return 18
 		}, Run: run, Replay: replay, Parallel: true},
 			{Name: "long-lived", Shards: func(t string) int {
 				if t == "thorough" {
 					return 5
 				}
 				return 2
-			}, Run: runLL, Replay: replayLL, Parallel: true}},
+			}, Run: runLL, Replay: replayLL, Parallel: true},
+			twin.Sub("C03", twinScenarios)},
 	})
 }
